@@ -6,52 +6,32 @@
     sibling-independent codemods; max in-flight files <= w.
 
     What is proved here, for the model of Model/Sched.v (one codemod over its file list; the whole run is the
-    sequential composition of such steps, apply_codemods):
-    - C11_schedule_free / C11_schedule_free_spec: EVERY interleaving of the per-file tasks [Read i; Compute i; Write i]
-      (any number of threads, any scheduler, any completion order) over distinct files ends with the same file system
-      (pointwise [lookup]) and the same merged aggregates as the sequential run, and touches no path outside the list.
-      Assumption carried by the model, read off the source by the translator (sched_task_local, sched_results_in_order):
-      a task touches only its own file and its own FileContext; the run context is updated after the pool is drained.
+    sequential composition of such steps, apply_codemods, which is observed, not proved):
+    - C11_schedule_free (indexed by sched_task_local): with task-local per-file state, EVERY interleaving of the
+      per-file tasks [Read i; Compute i; Write i] (any number of threads, any scheduler, any completion order) over
+      distinct files ends with the same file system (pointwise [lookup]) and the same merged aggregates as the
+      sequential run and as the schedule-free specification, and touches no path outside the list.  With per-file
+      state kept on a shared object the statement is refuted (two files, overlapped reads).  The locality itself is
+      read off the source by the translator (scan of _process_file, the three pipelines' apply methods,
+      LibcstResultTransformer.transform and FileContext); that a pipeline's answer is a function of the text it read is
+      an oracle assumption measured by the harness.
     - C11_merge_in_input_order (indexed by sched_collect): the aggregates are the per-file results in INPUT order.
     - C11_sibling_free: with a detector that looks at one file at a time, outcome and final text of f in D equal
       those in the project {f}.
-    - C11_inflight (indexed by pool_size_arg): in-flight <= w after every prefix of every admissible pool trace;
-      refuted for ThreadPoolExecutor() (w = 2, 12 files in flight).  The admission rule is the contract of
-      concurrent.futures.ThreadPoolExecutor (oracle; measured by the harness).
-    - C11_registry_order (indexed by entry_point_iteration): the order in which codemods run and are reported in the
-      default / SAST selection is a function of the entry-point sequence only; refuted for iteration over a set.
-    - C11_enumeration_free (indexed by sched_paths_order): the task order is the same for every enumeration order
-      of the same set of matched paths and every hash seed; refuted for the iteration order of a set of str.
+    - C11_inflight (indexed by pool_size_arg): the number of files in flight is derived from a model of the executor's
+      worker threads (a thread is spawned only below max_workers; a thread runs one item at a time): <= w after every
+      prefix of every execution, and so is the counter read off the events; refuted for ThreadPoolExecutor()
+      (w = 2, 12 files in flight).  That CPython's executor behaves like the worker model is measured by the harness.
+    - C11_registry_order (indexed by entry_point_iteration): dict.fromkeys and set are both modelled WITH the seeded
+      hash (lookups go through the hash; a set is iterated in slot order): for dict.fromkeys the run / report order of
+      the default and SAST selection is proved independent of the hash and of the table size and equal to the
+      first-occurrence order; for a set it is refuted, but the same collections are still loaded (a permutation).
+    - C11_enumeration_free (indexed by sched_paths_order): sorted(set) gives the same task order for every
+      enumeration order, hash and table size; refuted for list(set).
     Not modelled (observed by the harness only): preemption inside libcst, the GIL, the file system's own
-    atomicity, Python's set iteration order as a function of PYTHONHASHSEED (any key function [h] stands for it). *)
+    atomicity, CPython's open addressing (abstracted to buckets / slots). *)
 From CM Require Import Base.Dict Model.Sched Spec.SchedSpec Proofs.SchedFacts Generated.Tables.
 From Coq Require Import Permutation.
-
-(* ---------------------------------------------------------------------------------------------- *)
-Theorem C11_schedule_free :
-  forall (T : transformer) (fnd : path -> findings) (files : list path) (fs0 : fsys) (tr : list ev),
-    List.NoDup files -> interleaving (tasks (length files)) tr ->
-    let st := exec files T fnd fs0 tr in
-    let sq := exec files T fnd fs0 (sequential (length files)) in
-    (forall p, lookup (st_fs st) p = lookup (st_fs sq) p) /\
-    merged MapInputOrder (length files) tr st = merged MapInputOrder (length files) (sequential (length files)) sq /\
-    (forall p, ~ In p files -> lookup (st_fs st) p = lookup fs0 p).
-Proof. exact schedule_free. Qed.
-Print Assumptions C11_schedule_free.
-
-(** The same, against the schedule-free specification: each file holds what its own pipeline makes of its ORIGINAL text. *)
-Theorem C11_schedule_free_spec :
-  forall (T : transformer) (fnd : path -> findings) (files : list path) (fs0 : fsys) (tr : list ev),
-    List.NoDup files -> interleaving (tasks (length files)) tr ->
-    (forall p, lookup (st_fs (exec files T fnd fs0 tr)) p = spec_fs files T fnd fs0 p) /\
-    merged MapInputOrder (length files) tr (exec files T fnd fs0 tr) = spec_merged files T fnd fs0.
-Proof. exact exec_spec. Qed.
-Print Assumptions C11_schedule_free_spec.
-
-(** The sequential run is one of the interleavings (the quantification above is not empty). *)
-Theorem C11_sequential_is_a_schedule : forall n, interleaving (tasks n) (sequential n).
-Proof. exact sequential_interleaving. Qed.
-Print Assumptions C11_sequential_is_a_schedule.
 
 (* ---------------------------------------------------------------------------------------------- *)
 (** witnesses *)
@@ -64,28 +44,67 @@ Definition w_fnd : path -> findings := fun _ => [].
 Definition w_fs : fsys := [(w_a, [120]%N); (w_b, [121]%N); ([99]%N, [122]%N)].
 Definition w_reversed : list ev := [Read 1; Compute 1; Write 1; Read 0; Compute 0; Write 0].
 Definition w_overlapped : list ev := [Read 1; Read 0; Compute 0; Compute 1; Write 1; Write 0].
+Definition w_reads_first : list ev := [Read 0; Read 1; Compute 0; Compute 1; Write 0; Write 1].
 
+Lemma w_nodup : List.NoDup [w_a; w_b].
+Proof. repeat constructor; simpl; intuition discriminate. Qed.
+
+(* ---------------------------------------------------------------------------------------------- *)
+Definition C11_schedule_free_statement (loc : locality_form) : Prop :=
+  match loc with
+  | TaskLocal =>
+      forall (T : transformer) (fnd : path -> findings) (files : list path) (fs0 : fsys) (tr : list ev),
+        List.NoDup files -> interleaving (tasks (length files)) tr ->
+        let st := exec loc files T fnd fs0 tr in
+        let sq := exec loc files T fnd fs0 (sequential (length files)) in
+        (forall p, lookup (st_fs st) p = lookup (st_fs sq) p) /\
+        merged MapInputOrder (length files) tr st = merged MapInputOrder (length files) (sequential (length files)) sq /\
+        (forall p, ~ In p files -> lookup (st_fs st) p = lookup fs0 p) /\
+        (forall p, lookup (st_fs st) p = spec_fs files T fnd fs0 p) /\
+        merged MapInputOrder (length files) tr st = spec_merged files T fnd fs0
+  | SharedScratch =>
+      exists (T : transformer) (fnd : path -> findings) (files : list path) (fs0 : fsys) (tr : list ev) (p : path),
+        List.NoDup files /\ interleaving (tasks (length files)) tr /\
+        lookup (st_fs (exec loc files T fnd fs0 tr)) p <> lookup (st_fs (exec loc files T fnd fs0 (sequential (length files)))) p
+  end.
+Lemma C11_schedule_free_all loc : C11_schedule_free_statement loc.
+Proof.
+  destruct loc; simpl.
+  - intros T fnd files fs0 tr Hnd Hil.
+    destruct (schedule_free T fnd files fs0 tr Hnd Hil) as (H1 & H2 & H3).
+    destruct (exec_spec T fnd files fs0 tr Hnd Hil) as (H4 & H5). repeat split; assumption.
+  - exists w_T, w_fnd, [w_a; w_b], w_fs, w_reads_first, w_a.
+    split; [exact w_nodup|]. split; [apply check_il_sound; vm_compute; reflexivity|].
+    vm_compute. discriminate.
+Qed.
+Theorem C11_schedule_free : C11_schedule_free_statement sched_task_local.
+Proof. exact (C11_schedule_free_all sched_task_local). Qed.
+Print Assumptions C11_schedule_free.
+
+(** The sequential run is one of the interleavings (the quantification above is not empty). *)
+Theorem C11_sequential_is_a_schedule : forall n, interleaving (tasks n) (sequential n).
+Proof. exact sequential_interleaving. Qed.
+Print Assumptions C11_sequential_is_a_schedule.
+
+(* ---------------------------------------------------------------------------------------------- *)
 Definition C11_merge_statement (v : collect_form) : Prop :=
   match v with
   | MapInputOrder =>
       forall (T : transformer) (fnd : path -> findings) (files : list path) (fs0 : fsys) (tr : list ev),
         List.NoDup files -> interleaving (tasks (length files)) tr ->
-        merged v (length files) tr (exec files T fnd fs0 tr) = spec_merged files T fnd fs0
+        merged v (length files) tr (exec TaskLocal files T fnd fs0 tr) = spec_merged files T fnd fs0
   | CompletionOrder =>
       exists (T : transformer) (fnd : path -> findings) (files : list path) (fs0 : fsys) (tr1 tr2 : list ev),
         List.NoDup files /\ interleaving (tasks (length files)) tr1 /\ interleaving (tasks (length files)) tr2 /\
-        merged v (length files) tr1 (exec files T fnd fs0 tr1) <> merged v (length files) tr2 (exec files T fnd fs0 tr2)
+        merged v (length files) tr1 (exec TaskLocal files T fnd fs0 tr1) <> merged v (length files) tr2 (exec TaskLocal files T fnd fs0 tr2)
   end.
 Lemma C11_merge_all v : C11_merge_statement v.
 Proof.
   destruct v; simpl.
   - intros. now apply exec_spec.
   - exists w_T, w_fnd, [w_a; w_b], w_fs, (sequential 2), w_reversed.
-    split; [|split; [|split]].
-    + repeat constructor; simpl; intuition discriminate.
-    + apply sequential_interleaving.
-    + apply check_il_sound. vm_compute. reflexivity.
-    + vm_compute. discriminate.
+    split; [exact w_nodup|]. split; [apply sequential_interleaving|].
+    split; [apply check_il_sound; vm_compute; reflexivity|]. vm_compute. discriminate.
 Qed.
 Theorem C11_merge_in_input_order : C11_merge_statement sched_collect.
 Proof. exact (C11_merge_all sched_collect). Qed.
@@ -96,28 +115,34 @@ Theorem C11_sibling_free :
   forall (T : transformer) (D : detector) (files : list path) (fs0 : fsys) (f : path) (i : nat) (tr tr1 : list ev),
     List.NoDup files -> nth_error files i = Some f -> sibling_independent D ->
     interleaving (tasks (length files)) tr -> interleaving (tasks 1) tr1 ->
-    let st := run_codemod files T D fs0 tr in
-    let st1 := run_codemod [f] T D (only_file fs0 f) tr1 in
+    let st := run_codemod TaskLocal files T D fs0 tr in
+    let st1 := run_codemod TaskLocal [f] T D (only_file fs0 f) tr1 in
     lookup (st_fs st) f = lookup (st_fs st1) f /\ res_of st i = res_of st1 0.
 Proof. exact sibling_free. Qed.
 Print Assumptions C11_sibling_free.
 
 (* ---------------------------------------------------------------------------------------------- *)
+Definition w_pool_pre : list pev := map Submit (seq 0 12) ++ repeat Spawn 12 ++ map (fun i => Take i i) (seq 0 12).
+Definition w_pool_post : list pev := map Done (seq 0 12).
+
 Definition C11_inflight_statement (a : option pool_arg) : Prop :=
   match a with
   | Some MaxWorkersArg =>
-      forall (w cpu : N) (pre post : list pev),
-        admissible (pool_bound a w cpu) [] [] (pre ++ post) = true ->
-        (N.of_nat (inflight pre) <= w)%N /\ (N.of_nat (max_inflight (pre ++ post)) <= w)%N
+      forall (w cpu : N) (pre post : list pev) (p'' : pool),
+        pool_run (pool_bound a w cpu) pool_init (pre ++ post) = Some p'' ->
+        (exists p', pool_run (pool_bound a w cpu) pool_init pre = Some p' /\ (N.of_nat (busy p') <= w)%N) /\
+        (N.of_nat (peak (pre ++ post)) <= w)%N
   | None =>
-      exists (w cpu : N) (pre post : list pev),
-        admissible (pool_bound a w cpu) [] [] (pre ++ post) = true /\ (w < N.of_nat (inflight pre))%N
+      exists (w cpu : N) (pre post : list pev) (p' p'' : pool),
+        pool_run (pool_bound a w cpu) pool_init (pre ++ post) = Some p'' /\
+        pool_run (pool_bound a w cpu) pool_init pre = Some p' /\ (w < N.of_nat (busy p'))%N
   end.
 Lemma C11_inflight_all a : C11_inflight_statement a.
 Proof.
   destruct a as [[]|]; simpl.
-  - intros w cpu pre post H. split; [eapply inflight_le; eauto | now apply max_inflight_le].
-  - exists 2%N, 16%N, (map Start (seq 0 12)), (map Finish (seq 0 12)). split; vm_compute; reflexivity.
+  - intros w cpu pre post p'' H. split; [eapply pool_inflight_le; eauto | eapply peak_le; eauto].
+  - exists 2%N, 16%N, w_pool_pre, w_pool_post. do 2 eexists.
+    split; [vm_compute; reflexivity|]. split; [vm_compute; reflexivity|]. vm_compute. reflexivity.
 Qed.
 Theorem C11_inflight : C11_inflight_statement pool_size_arg.
 Proof. exact (C11_inflight_all pool_size_arg). Qed.
@@ -126,23 +151,27 @@ Print Assumptions C11_inflight.
 (* ---------------------------------------------------------------------------------------------- *)
 Definition w_eps : list entry_point :=
   [(0%N, [([115; 111; 110; 97; 114; 58; 97]%N, false)]); (1%N, [([115; 101; 109; 103; 114; 101; 112; 58; 98]%N, false)]);
-   (2%N, [([112; 105; 120; 101; 101; 58; 99]%N, true)])].
+   (2%N, [([112; 105; 120; 101; 101; 58; 99]%N, true)]); (0%N, [([115; 111; 110; 97; 114; 58; 97]%N, false)])].
 
 Definition C11_registry_statement (v : iter_form) : Prop :=
   match v with
   | Deterministic =>
-      forall (h h' : N -> N) (eps : list entry_point) (excluded : list str) (sast_only : bool),
-        run_order v h eps excluded sast_only = run_order v h' eps excluded sast_only /\
-        run_order v h eps excluded sast_only = spec_run_order eps excluded sast_only
+      forall (h h' : N -> N) (m m' : N) (eps : list entry_point) (excluded : list str) (sast_only : bool),
+        run_order v h m eps excluded sast_only = run_order v h' m' eps excluded sast_only /\
+        run_order v h m eps excluded sast_only = spec_run_order eps excluded sast_only
   | OverSet =>
-      exists (h h' : N -> N) (eps : list entry_point) (excluded : list str) (sast_only : bool),
-        run_order v h eps excluded sast_only <> run_order v h' eps excluded sast_only
+      (exists (h h' : N -> N) (m : N) (eps : list entry_point) (excluded : list str) (sast_only : bool),
+         (0 < m)%N /\ run_order v h m eps excluded sast_only <> run_order v h' m eps excluded sast_only) /\
+      (forall (h : N -> N) (m : N) (eps : list entry_point), (0 < m)%N -> Permutation (iter_order v h m eps) (dedup_eps eps))
   end.
 Lemma C11_registry_all v : C11_registry_statement v.
 Proof.
   destruct v; simpl.
-  - exists (fun n => n), (fun n => (10 - n)%N), w_eps, [], true. vm_compute. discriminate.
-  - intros. split; reflexivity.
+  - split.
+    + exists (fun n => n), (fun n => (7 - n)%N), 8%N, w_eps, [], true. split; [reflexivity|]. vm_compute. discriminate.
+    + intros. now apply iter_order_overset_perm.
+  - intros h h' m m' eps excluded sast_only. unfold run_order, registry_of, spec_run_order.
+    rewrite !iter_order_deterministic. split; reflexivity.
 Qed.
 Theorem C11_registry_order : C11_registry_statement entry_point_iteration.
 Proof. exact (C11_registry_all entry_point_iteration). Qed.
@@ -151,14 +180,16 @@ Print Assumptions C11_registry_order.
 (* ---------------------------------------------------------------------------------------------- *)
 Definition C11_enumeration_statement (v : order_form) : Prop :=
   match v with
-  | SortedPaths => forall (h h' : str -> N) l l', Permutation l l' -> match_order v h l = match_order v h' l'
-  | SetOrder => exists (h h' : str -> N) l, match_order v h l <> match_order v h' l
+  | SortedPaths =>
+      forall (h h' : str -> N) (m m' : N) l l', (0 < m)%N -> (0 < m')%N -> Permutation l l' ->
+        match_order v h m l = match_order v h' m' l'
+  | SetOrder => exists (h h' : str -> N) (m : N) l, (0 < m)%N /\ match_order v h m l <> match_order v h' m l
   end.
 Lemma C11_enumeration_all v : C11_enumeration_statement v.
 Proof.
   destruct v; simpl.
-  - intros h h' l l' HP. now apply sort_paths_perm_eq.
-  - exists (fun s => hd 0%N s), (fun s => (200 - hd 0 s)%N), [w_a; w_b]. vm_compute. discriminate.
+  - intros h h' m m' l l' Hm Hm' HP. now apply (match_order_sorted_free h h' m m' l l').
+  - exists (fun s => hd 0%N s), (fun s => (200 - hd 0 s)%N), 8%N, [w_a; w_b]. split; [reflexivity|]. vm_compute. discriminate.
 Qed.
 Theorem C11_enumeration_free : C11_enumeration_statement sched_paths_order.
 Proof. exact (C11_enumeration_all sched_paths_order). Qed.
@@ -168,20 +199,33 @@ Print Assumptions C11_enumeration_free.
 (** Non-vacuity: a non-sequential schedule of two rewriting tasks meets the hypotheses, and the result is computed. *)
 Example C11_schedule_free_example :
   List.NoDup [w_a; w_b] /\ interleaving (tasks 2) w_overlapped /\
-  lookup (st_fs (exec [w_a; w_b] w_T w_fnd w_fs w_overlapped)) w_a = Some [120; 33]%N /\
-  lookup (st_fs (exec [w_a; w_b] w_T w_fnd w_fs w_overlapped)) w_b = Some [121; 33]%N /\
-  lookup (st_fs (exec [w_a; w_b] w_T w_fnd w_fs w_overlapped)) [99]%N = Some [122]%N /\
-  r_changesets (merged MapInputOrder 2 w_overlapped (exec [w_a; w_b] w_T w_fnd w_fs w_overlapped)) = [w_a; w_b].
+  lookup (st_fs (exec TaskLocal [w_a; w_b] w_T w_fnd w_fs w_overlapped)) w_a = Some [120; 33]%N /\
+  lookup (st_fs (exec TaskLocal [w_a; w_b] w_T w_fnd w_fs w_overlapped)) w_b = Some [121; 33]%N /\
+  lookup (st_fs (exec TaskLocal [w_a; w_b] w_T w_fnd w_fs w_overlapped)) [99]%N = Some [122]%N /\
+  r_changesets (merged MapInputOrder 2 w_overlapped (exec TaskLocal [w_a; w_b] w_T w_fnd w_fs w_overlapped)) = [w_a; w_b].
 Proof.
-  split; [repeat constructor; simpl; intuition discriminate|].
-  split; [apply check_il_sound; vm_compute; reflexivity|].
+  split; [exact w_nodup|]. split; [apply check_il_sound; vm_compute; reflexivity|].
   vm_compute. repeat split; reflexivity.
 Qed.
 
-(** an admissible pool trace under bound 2 that reaches 2 in flight; a sibling-independent detector *)
+(** the race of the refuted branch, computed: with shared per-file state the first file receives the second one's text *)
+Example C11_shared_state_race :
+  lookup (st_fs (exec SharedScratch [w_a; w_b] w_T w_fnd w_fs w_reads_first)) w_a = Some [121; 33]%N /\
+  lookup (st_fs (exec TaskLocal [w_a; w_b] w_T w_fnd w_fs w_reads_first)) w_a = Some [120; 33]%N.
+Proof. split; vm_compute; reflexivity. Qed.
+
+(** a pool with bound 2: three items, two threads, two files in flight at the peak; a third thread cannot be spawned *)
 Example C11_inflight_example :
-  admissible (pool_bound (Some MaxWorkersArg) 2 16) [] [] ([Start 0; Start 1] ++ [Finish 0; Start 2; Finish 2; Finish 1]) = true /\
-  inflight [Start 0; Start 1] = 2.
+  (exists p', pool_run (pool_bound (Some MaxWorkersArg) 2 16) pool_init
+                [Submit 0; Spawn; Submit 1; Spawn; Submit 2; Take 0 0; Take 1 1; Done 0; Take 0 2; Done 1; Done 0] = Some p') /\
+  peak [Submit 0; Spawn; Submit 1; Spawn; Submit 2; Take 0 0; Take 1 1; Done 0; Take 0 2; Done 1; Done 0] = 2 /\
+  pool_run (pool_bound (Some MaxWorkersArg) 2 16) pool_init [Spawn; Spawn; Spawn] = None.
+Proof. split; [eexists; vm_compute; reflexivity|]. split; vm_compute; reflexivity. Qed.
+
+(** the duplicated entry point of [w_eps] is loaded once, whatever the hash; a set yields the same collections *)
+Example C11_registry_example :
+  map fst (iter_order Deterministic (fun n => (7 - n)%N) 8 w_eps) = [0; 1; 2]%N /\
+  map fst (iter_order OverSet (fun n => (7 - n)%N) 8 w_eps) = [2; 1; 0]%N.
 Proof. split; vm_compute; reflexivity. Qed.
 
 Example C11_sibling_example :
